@@ -48,9 +48,20 @@ class Holder:
   """The outcome the scripted policy produces on its next call, and a call counter."""
 
   def __init__(self):
-    self.outcome = ('deliver', [], [], [])
+    self._default = ('deliver', [], [], [])
+    self._by_thread = {}
     self.calls = 0
     self.in_pythia = False
+
+  @property
+  def outcome(self):
+    import threading
+    return self._by_thread.get(threading.get_ident(), self._default)
+
+  @outcome.setter
+  def outcome(self, v):
+    import threading
+    self._by_thread[threading.get_ident()] = v
 
 
 def kv_to_md(delta_study, delta_trials):
